@@ -323,7 +323,7 @@ func oracleLockstepType(env *vh.Env, rep *vh.Report, facts lockFacts, c ctor) {
 		}
 		reps, sts, xs := 1, base, conflicts[:min(2, len(conflicts))]
 		why, flagged := sus[m]
-		if flagged || env.Thorough {
+		if flagged || (env.Thorough && !phaseOver()) {
 			reps, sts, xs = 1, all, conflicts
 			if flagged {
 				reps = 2
@@ -417,7 +417,7 @@ func blockingQueues(env *vh.Env, rep *vh.Report) {
 			continue
 		}
 		for _, n := range []int{1, 2, 3, 5} {
-			for r := 0; r < reps*4; r++ {
+			for r := 0; r < reps*4 && !(r >= 4 && phaseOver()); r++ {
 				var get func() interface{}
 				var put func(i int) bool
 				var size func() int
@@ -497,7 +497,7 @@ func growthAndRemovers(env *vh.Env, rep *vh.Report) {
 		wg.Add(1)
 		go func(c ctor) {
 			defer wg.Done()
-			for r := 0; r < rounds && !isDead(c.name); r++ {
+			for r := 0; r < rounds && !isDead(c.name) && !(r >= 3 && phaseOver()); r++ {
 				if !presentKeyRound(rep, c) || !removersRound(rep, c) {
 					return
 				}
@@ -711,7 +711,7 @@ func partialWakeups(env *vh.Env, rep *vh.Report) {
 			continue
 		}
 		for _, kj := range [][2]int{{2, 1}, {3, 1}, {3, 2}, {5, 2}} {
-			for r := 0; r < reps*2; r++ {
+			for r := 0; r < reps*2 && !(r >= 2 && phaseOver()); r++ {
 				k, j := kj[0], kj[1]
 				var get func() interface{}
 				var put func(i int) bool
@@ -956,7 +956,7 @@ func readLockWriterStress(env *vh.Env, rep *vh.Report, facts lockFacts) {
 		for _, m := range facts.readLockWriters(c.name) {
 			rep.Count("read-lock-writer:methods")
 			failed := false
-			for r := 0; r < rounds && !failed; r++ {
+			for r := 0; r < rounds && !failed && !(r >= 10 && phaseOver()); r++ {
 				obj := c.mk()
 				const n = 5
 				insertN(obj, 1, n)
